@@ -46,7 +46,9 @@ def countPk (s : String) : Nat :=
 
 /-- reader ops: `rd.stream <ver> <maxpkt> <hex>` — the events of `Client.Read` on the byte stream.
     Spec verdict on the implementation's answer: no panic; no packet whose total size exceeds the
-    configured maximum is delivered (signature F28 when only the length bytes make it oversized). -/
+    configured maximum is delivered (total size by the SPEC framing: header byte + length bytes +
+    remaining length; a plain violation, also when only the length bytes make it oversized — the former
+    finding F28 is repaired in the code). -/
 def readerOp (impl : String) : List String → Option (String × String × String)
   | ["rd.stream", ver, maxpkt, h] => do
     let ver ← ver.toNat?
@@ -63,8 +65,7 @@ def readerOp (impl : String) : List String → Option (String × String × Strin
       | some k =>
         if delivered > k then
           let f := frames.getD k (0, 0)
-          let sig := if f.2 + 1 ≤ maxpkt then "F28" else "-"
-          [s!"FAIL[C28|{sig}] a packet of {f.1} bytes (remaining length {f.2}) was read and delivered although the maximum packet size is {maxpkt}"]
+          [s!"FAIL[C28|-] a packet of {f.1} bytes (remaining length {f.2}) was read and delivered although the maximum packet size is {maxpkt}"]
         else []
       | none => []
     let vs := vPanic ++ vSize
